@@ -878,20 +878,35 @@ def run_table(case, model):
 def run_case(case, model):
     """Wall-clock observations are repeated before they are believed: a finding is reported only if the same case fails three times in
     a row with the same signature (a wrong or missing timeout fails every time; a machine that was busy for a moment does not)."""
-    r = _run_case(case, model)
+    r = _attempt_case(case, model)
     if case['side'] == 'table':
         return r
     for _ in range(2):
         if not r.hits and not r.mismatch:
             return r
         first = r.hits[0]['signature'] if r.hits else None
-        r2 = _run_case(case, model)
+        r2 = _attempt_case(case, model)
         if (first is not None and not any(h['signature'] == first for h in r2.hits)) or (first is None and not r2.mismatch):
             r2.tags.append('wall-clock-retry')      # did not repeat: what the second run saw (possibly another finding) is examined in turn
             r = r2
             continue
         r = r2
     return r
+
+
+def _attempt_case(case, model):
+    """The scripted part of a case (banner, EHLO, MAIL, ... up to the stall point) is itself under the server's command timeout: on a
+    machine that keeps this process waiting for longer than that, the session is cut before the script gets to its point and the next
+    write fails. That says nothing about the code: the case is run again (three times; a server that cuts sessions early fails each time
+    and the error stands)."""
+    for n in range(3):
+        try:
+            return _run_case(case, model)
+        except OSError:
+            if n == 2:
+                raise
+            import gevent
+            gevent.sleep(0.05 * (n + 1))
 
 
 def _run_case(case, model):
